@@ -305,6 +305,60 @@ def run_negative(case):
         shutil.rmtree(wd, ignore_errors=True)
 
 
+def run_looms(i):
+    """Marks on several nodes: 2-3 looms, one process each, and the threads carry the SAME thread id on every
+    loom (ids are only unique inside a node).  Each thread defines the same mark type and sets (or pushes and
+    pops) its own values; the emulator must accept the trace and every thread row must show the values of
+    its own thread, in order, in type 100+t."""
+    chk, drv, plain = _CTX["chk"], _CTX["drv"], _CTX["plain"]
+    rng = chk.rng(i, "looms")
+    nl = rng.choice([2, 2, 3])
+    t = rng.choice([0, 7, 99, rng.randint(0, 99)])
+    kind = rng.choice(["single", "stack"])
+    tid = rng.choice([700, 4242, 32768, 4194000])
+    wd = os.path.join(chk.scratch, "l%d" % i)
+    res = {"i": i, "viol": None}
+    want = {}
+    try:
+        os.makedirs(wd)
+        for l in range(nl):
+            vals = [1000 * (l + 1) + k for k in range(1, rng.randint(2, 5))]
+            want["n%d" % l] = vals
+            ops = ["proc 1 n%d %d" % (l, 100 + l), "thread", "init %d" % tid, "cpu 0 0",
+                   "mark_type %d %d shared title" % (t, 1 if kind == "stack" else 0),
+                   "ev OHx now %s" % obs.i32(0, tid, 0).hex()]
+            if kind == "single":
+                ops += ["mark_set %d %d" % (t, v) for v in vals]
+            else:
+                ops += ["mark_push %d %d" % (t, v) for v in vals] + ["mark_pop %d %d" % (t, v) for v in reversed(vals)]
+            ops += ["ev OHe now -", "flush", "free", "end", "fini"]
+            r = rt.run_script(drv, "\n".join(ops) + "\n", wd, timeout=60)
+            if r.rc in (97, 98):
+                raise core.HarnessError("rtdrv: " + r.err[-300:])
+            if r.sanitizer or r.rc != 0:
+                res["viol"] = ("runtime-refuses-legal-program:looms", "libovni aborted a legal mark program: " + r.err[-300:], r.brief())
+                return res
+        tdir = os.path.join(wd, "trace")
+        os.makedirs(os.path.join(tdir, "cfg"), exist_ok=True)
+        r = emu.emu(plain, tdir, ["-l"], timeout=60)
+        if not emu.accepted(r):
+            res["viol"] = ("emulator-rejects-legal-marks:looms", "%d looms whose threads all have id %d, mark type %d: ovniemu -l "
+                           "rejected: %s" % (nl, tid, t, emu.last_error(r)), r.brief()); return res
+        out = pv.Out(tdir)
+        rows = out.row["thread"].threads
+        for l in range(nl):
+            rr = [k + 1 for k, nm in enumerate(rows) if nm.endswith(".%d" % tid)]
+            row = rr[l] if l < len(rr) else None
+            got = [v for (r_, t_, ty, v) in out.prv["thread"].lines if r_ == row and ty == 100 + t and v != 0]
+            exp = want["n%d" % l] if kind == "single" else want["n%d" % l] + list(reversed(want["n%d" % l]))[1:]
+            if got != exp:
+                res["viol"] = ("mark-view:thread:looms", "thread row %s of loom n%d shows %s in type %d, its thread set %s"
+                               % (row, l, got, 100 + t, exp), {}); return res
+        return res
+    finally:
+        shutil.rmtree(wd, ignore_errors=True)
+
+
 def main(argv):
     chk = core.Check("C17", "exploration", argv)
     asan = chk.build("asan", ["ovni"])
@@ -332,8 +386,14 @@ def main(argv):
             where[r["name"]] = r["where"]
             if r["viol"]:
                 chk.report(r["viol"][0], r["viol"][1], {"negative": r["name"], "observation": r["viol"][2]})
+    nlooms = 0
+    if not chk.replay:
+        for r in core.pmap(run_looms, range(24 if chk.tier == "quick" else 400)):
+            nlooms += 1
+            if r["viol"]:
+                chk.report(r["viol"][0], r["viol"][1], {"looms": r["i"], "observation": r["viol"][2]})
     p0 = gen_program(chk, cases[0])
-    cov = {"evaluations": n + nneg, "distinct_nontrivial": len(shapes) + len(where),
+    cov = {"evaluations": n + nneg + nlooms, "multi_loom_programs": nlooms, "distinct_nontrivial": len(shapes) + len(where),
            "rule": "random mark programs (1-3 processes, 1-4 threads, 1-4 types single/stack with labels defined by subsets "
                    "of threads that agree, values incl. negative and unlabeled, interleaved with pause/resume/cool/warm and "
                    "OAs) executed on the ASan+UBSan libovni; the streams the library wrote are merged by clock into the "
